@@ -46,7 +46,8 @@ def translate(toks, rules, log, what="", generic=True):
         except AnchorLost as e:
             raise Undecided(f"{what}: anchor lost: {e}")
     if generic:
-        toks = option_idioms(toks, log)        # after the unit's own rules (which are written against the original text)
+        from .rules import split_or_guard_arms
+        toks = split_or_guard_arms(option_idioms(toks, log), log)        # after the unit's own rules (which are written against the original text)
         for r in _generic_rules():
             toks = r.apply(toks, log)
     return toks
